@@ -152,3 +152,34 @@ OF = Contract("C14", LINUX_PY, "Process.open_files", env=ENV, decorated=True,
               replay="c14:open_files", note="bounded: descriptor scan against generated descriptor tables")
 BOUNDED_CONTRACTS = [OF]
 BOUNDED = [bounded_sweep(OF, "c14:open_files", quick=60, thorough=1500)]
+
+
+# --- table: the descriptor-table readers run their body on every call ------------------------------------------------
+
+def table_fd_readers_not_cached():
+    """"reflect the descriptor table exactly ... for every history": open_files(), num_fds() and io_counters() read /proc on
+    every call.  A caching decorator on one of them (memoize_when_activated freezes the answer for a whole oneshot() block,
+    memoize for ever) would return the table of an earlier moment; oneshot_enter() must not activate a cache on them."""
+    import ast as _ast
+    repo = os.environ.get("VERIF_REPO", "/repo")
+    out = []
+    names = ("open_files", "num_fds", "io_counters")
+    for rel in (LINUX_PY, "psutil/__init__.py"):
+        tree = _ast.parse(open(os.path.join(repo, rel)).read())
+        for cls in [n for n in tree.body if isinstance(n, _ast.ClassDef) and n.name == "Process"]:
+            for node in cls.body:
+                if isinstance(node, _ast.FunctionDef) and node.name in names:
+                    decs = [_ast.unparse(d) for d in node.decorator_list]
+                    caching = [d for d in decs if any(w in d.lower() for w in ("memo", "cache", "lru"))]
+                    out.append((f"{rel}: Process.{node.name} carries no caching decorator", not caching,
+                                f"decorators: {decs}"))
+                if isinstance(node, _ast.FunctionDef) and node.name in ("oneshot_enter", "oneshot"):
+                    act = [_ast.unparse(c.func) for c in _ast.walk(node) if isinstance(c, _ast.Call)
+                           and isinstance(c.func, _ast.Attribute) and c.func.attr == "cache_activate"]
+                    bad = [a for a in act if any(f".{n}." in a for n in names)]
+                    out.append((f"{rel}: Process.{node.name} activates no cache on a descriptor-table reader", not bad,
+                                str(bad)))
+    return out
+
+
+TABLES = list(globals().get("TABLES", [])) + [table_fd_readers_not_cached]
